@@ -63,6 +63,9 @@ type Parser struct {
 	backedUp    token.Token
 	hasBackedUp bool
 
+	// illegal is the first illegal token the lexer has produced
+	illegal *token.Token
+
 	prefixParseFns map[token.TokenType]prefixParseFn
 	infixParseFns  map[token.TokenType]infixParseFn
 
@@ -148,6 +151,12 @@ func (p *Parser) ParseProgram() *ast.Program {
 		prog.Statements = append(prog.Statements, stmt)
 
 		p.nextToken() // skip to next token
+	}
+
+	// an illegal token in a place where a statement parser
+	// has stepped over it without looking at it
+	if p.illegal != nil && len(p.errors) == 0 {
+		p.newError(p.illegal.ErrorLine(), fail.ErrIllegalToken, p.illegal.Literal)
 	}
 
 	// the input ended inside "{{ }}" or inside directive arguments
@@ -281,6 +290,11 @@ func (p *Parser) nextToken() {
 	}
 
 	p.peekToken = p.l.NextToken()
+
+	if p.illegal == nil && p.peekToken.Type == token.ILLEGAL {
+		tok := p.peekToken
+		p.illegal = &tok
+	}
 }
 
 // backUp undoes the last call of nextToken
